@@ -40,9 +40,15 @@ def scan(P):
             sm = K.summary(P.key(F), entry, ())
             api[(fn, rs)] = sm
     uses, ready = {}, {}
+    clears = {}
     for mk, h in list(K.memo.items()):
         if isinstance(mk, tuple) and len(mk) == 2 and mk[1] == 'hook':
             F = h.F
+            for (e, ok, rs) in getattr(h, 'info_clears', ()):
+                c_ = clears.setdefault((P.key(F), e), {'ok': True, 'entries': []})
+                if not ok:
+                    c_['ok'] = False
+                    c_['entries'].append((mk[0][1], str(rs)))
             for (e, d, need, ok, rs) in h.uses:
                 u = uses.setdefault((P.key(F), e), {'callee': d, 'need': need, 'ok': True, 'entries': []})
                 if not ok:
@@ -57,6 +63,7 @@ def scan(P):
                 if rs is None or rs.lo < k5.STREAMSET:
                     r['ok'] = False
                     r['entries'].append((ent, str(rs)))
+    K.info_clears = clears
     _SCAN[id(P)] = (K, api, uses, ready)
     return _SCAN[id(P)]
 
@@ -145,6 +152,24 @@ def _own_success_returns(chk, P, K, fn, rule):
            f'{n} success-return states from entry states OPENED..INITSET, all with ready_state >= STREAMSET' if not bad else
            f'return on line {F.loc(rs_[0])} can report success with ready_state {bad[rs_[0]][0][1]} (entered with {bad[rs_[0]][0][0]}): the decoder '
            'cannot be rebuilt from there and the caller\'s _make_decode_ready fails with OV_EFAULT')
+
+
+def c13(chk, P):
+    chk.rule('R13.11', 'the set-up a live decoder refers to is not cleared under it: the handle\'s vorbis_dsp_state points at '
+             'vf->vi[link] and vorbis_dsp_clear sizes its release loops from it (channels, floors, residues); every call of '
+             'vorbis_info_clear on the handle\'s set-up array is reached only with the decoder already cleared (typestate K5, '
+             'from every consistent entry state).  Cleared in the other order, the dsp clear finds a zeroed info, frees the outer '
+             'arrays only and loses every per-channel buffer and look-up of the link')
+    K, api, uses, ready = scan(P)
+    n = 0
+    for (k, e), c_ in sorted(K.info_clears.items(), key=lambda kv: (kv[0][0], P.fn[kv[0][0]].ex[kv[0][1]]['loc'])):
+        F = P.fn[k]
+        chk.ob('R13.11', k, f'vorbis_info_clear#{_ordinal(F, e, "vorbis_info_clear")}:decoder-cleared-first', c_['ok'], F.where(e),
+               'the decoder is cleared in every state that reaches the call' if c_['ok'] else
+               f'reached with the decoder still live (entry state / ready_state: {c_["entries"][:2]}): vorbis_dsp_clear, which '
+               'follows, reads the cleared info and releases nothing below the outer arrays')
+        n += 1
+    return n
 
 
 def c20(chk, P):
